@@ -265,11 +265,59 @@ pub fn run(args: &Args) {
     cand::run_all(&mut run, &mut rng, thorough);
     // (7) TURN
     turn::run_all(&mut run, &mut rng, thorough);
+    // (8) ICE server URIs (RFC 7064 / 7065)
+    uri_cases(&mut run, &mut rng, thorough);
 
     run.exhaustive = true;
     run.notes.insert("exhaustive_scope".into(), serde_json::json!(
         "encode: 7 methods x 4 classes x key x fingerprint; string/DATA attributes of every length 0..=763; address boundary pool x 3 address attributes x 3 transaction ids; priorities: 4 types x 4 transports x components 0..=300 + boundaries; pair priority: all 64x64 pairs x 2 roles"));
     run.finish();
+}
+
+fn do_uri(run: &mut Run, u: &str) {
+    let out = match crate::catch({ let u = u.to_string(); move || hook::parse_ice_server_uri(&u) }) {
+        Ok(Ok((kind, host, port, tr))) => format!("ok {kind} {} {port} {tr}", hex(host.as_bytes())),
+        Ok(Err(e)) => format!("err {}", if e.contains("missing scheme") { "noscheme" } else if e.contains("invalid port") { "port" }
+            else if e.contains("unsupported scheme") { "scheme" } else if e.contains("unsupported transport") { "transport" }
+            else if e.contains("must not include transport") { "stuntransport" } else { "other" }),
+        Err(p) => { run.fail("codec:uri:panic", &format!("uri {}", hex(u.as_bytes())), &p); "panic".into() }
+    };
+    run.case("uri", &hex(u.as_bytes()), &out, out.starts_with("ok"));
+    run.count(&format!("uri_{}", out.split(' ').take(2).collect::<Vec<_>>().join("_")));
+}
+
+fn uri_cases(run: &mut Run, rng: &mut Rng, thorough: bool) {
+    let schemes = ["stun", "stuns", "turn", "turns", "STUN", "http", "", "stunx", "turn "];
+    let hosts = ["example.org", "192.0.2.1", "[2001:db8::1]", "2001:db8::1", "", "a", "host.with-dash.example", "ex?ample", "h\u{f6}st"];
+    let ports = ["", ":3478", ":0", ":65535", ":65536", ":+5", ":-1", ":", ":abc", ":3478:9"];
+    let queries = ["", "?transport=udp", "?transport=tcp", "?transport=TCP", "?transport=sctp", "?transport", "?x=1&transport=tcp", "?transport=udp&transport=tcp",
+                   "?Transport=tcp", "?", "?a=b", "?transport=", "?xtransport=1", "?transport=tcp?transport=udp"];
+    // RFC syntax and the oracle: `scheme:host[:port][?transport=..]` with defaults 3478/5349 and udp/tcp
+    for sc in schemes { for h in hosts { for p in ports { for q in queries {
+        let u = format!("{sc}:{h}{p}{q}");
+        do_uri(run, &u);
+        // independent oracle on the canonical subset
+        let simple_host = !h.is_empty() && !h.contains(':') && !h.contains('?');
+        let port_ok = p.is_empty() || matches!(p, ":3478" | ":0" | ":65535");
+        let q_ok = matches!(q, "" | "?transport=udp" | "?transport=tcp");
+        if ["stun", "stuns", "turn", "turns"].contains(&sc) && simple_host && port_ok && q_ok && !(sc.starts_with("stun") && !q.is_empty()) {
+            let want_port: u16 = if p.is_empty() { if sc.ends_with('s') { 5349 } else { 3478 } } else { p[1..].parse().unwrap() };
+            let want_tr = if q == "?transport=udp" { "udp" } else if q == "?transport=tcp" { "tcp" } else if sc.ends_with('s') { "tcp" } else { "udp" };
+            let want = (if sc.starts_with("stun") { "stun" } else { "turn" }.to_string(), h.to_string(), want_port, want_tr.to_string());
+            match hook::parse_ice_server_uri(&u) {
+                Ok(got) if got == want => {}
+                other => run.fail(&format!("codec:uri:{}:{}", sc, if p.is_empty() { "default-port" } else { "explicit-port" }), &format!("uri {}", hex(u.as_bytes())), &format!("{:?} vs {:?}", other, want)),
+            }
+        }
+    }}}}
+    for _ in 0..(if thorough { 50_000 } else { 3_000 }) {
+        let mut u = format!("{}:{}{}{}", rng.pick(&schemes), rng.pick(&hosts), rng.pick(&ports), rng.pick(&queries));
+        let mut b: Vec<char> = u.chars().collect();
+        match rng.below(4) { 0 if !b.is_empty() => { let i = rng.below(b.len() as u64) as usize; b.remove(i); }
+            1 => { let i = rng.below(b.len() as u64 + 1) as usize; b.insert(i, *rng.pick(&[':', '?', '&', '=', 'x', '%', ' '])); } _ => {} }
+        u = b.into_iter().collect();
+        do_uri(run, &u);
+    }
 }
 
 fn do_dec_of_reference(run: &mut Run, s: &Spec) {
@@ -281,7 +329,7 @@ fn do_dec_of_reference(run: &mut Run, s: &Spec) {
 fn replay(case: &str) {
     let case = case.trim();
     let (stream, rest) = match case.split_once(' ') {
-        Some((s, r)) if ["enc", "dec", "prio", "pair", "hash", "fromsdp", "tosdp-roundtrip"].contains(&s) => (s.to_string(), r.to_string()),
+        Some((s, r)) if ["enc", "dec", "prio", "pair", "hash", "fromsdp", "tosdp-roundtrip", "uri"].contains(&s) => (s.to_string(), r.to_string()),
         _ => {
             let first = case.split(' ').next().unwrap_or("");
             let st = if ["req", "ind", "ok", "err"].contains(&first) { "enc" }
@@ -300,6 +348,7 @@ fn replay(case: &str) {
         "prio" => { let f: Vec<&str> = rest.split(' ').collect();
                     let t = TYPES.into_iter().find(|t| typ_name(*t) == f[0]).unwrap(); do_prio(&mut run, t, f[1].parse().unwrap(), f[2]); }
         "pair" => { let f: Vec<&str> = rest.split(' ').collect(); do_pair(&mut run, f[1].parse().unwrap(), f[2].parse().unwrap()); }
+        "uri" => { let u = String::from_utf8(crate::unhex(rest.trim())).unwrap(); println!("uri: {u}\nimpl: {:?}", hook::parse_ice_server_uri(&u)); do_uri(&mut run, &u); }
         "fromsdp" | "tosdp-roundtrip" => {
             let line = String::from_utf8(crate::unhex(rest.split(' ').next().unwrap())).unwrap();
             println!("line: {line}");
